@@ -2,7 +2,7 @@
 # usage: mutcheck.sh <patch.diff> <prop>...   — applies the patch to a scratch copy of /repo's working tree
 # and runs the given property checks against it (no evidence written). Prints which properties fire.
 set -u
-patch="$1"; shift
+patch="$(realpath "$1")"; shift
 export GOFLAGS=-mod=mod GOPROXY=off GOSUMDB=off GOTOOLCHAIN=local GOWORK=off CGO_ENABLED=0
 scratch=$(mktemp -d /tmp/wsverif-mut.XXXXXX)
 trap 'rm -rf "$scratch"' EXIT
